@@ -459,6 +459,55 @@ def spaces(tier, variant, seed):
     sp.append(Space("mpz_div_ui_2exp", [(k, i) for k in ui_ops + ex_ops for i in range(len(NV + NBIG))], zu_cases, zu_one,
                     "_ui forms (returning |r|), _2exp forms, divexact_ui, divisible_ui_p/2exp_p: n x scalar alphabet, in place and separate"))
 
+    # ---- exact division and divisibility at sizes that reach the Hensel (bdiv) code: sb_bdiv_q / dc_bdiv_q / inverse-based ----
+    f_mpn_divexact = lib.fn("mpn_divexact", None, P, P, c_long, P, c_long)
+
+    def dx_cases(blk):
+        cfg, qn = blk
+        top = 70 if quick else 160
+        for dn in sorted(set(list(range(1, 12)) + list(range(12, top, 5)) + [18, 19, 20, 53, 54, 55])):
+            if dn > top:
+                continue
+            for qi in range(5):
+                for di in range(4):
+                    for sh in (0, 1, 63, 64, 130):
+                        if sh and (qi + di) % 3:
+                            continue
+                        yield (cfg, qn, dn, qi, di, sh)
+
+    def dx_one(case, R):
+        cfg, qn, dn, qi, di, sh = case
+        set_cfg(cfg)
+        q = [al.ones(qn), al.PAT(qn)["dense"], 1 << (64 * qn - 1), (1 << (64 * (qn - 1))) | 1, al.PAT(qn, 3)["dense"] | 1][qi]
+        d = [al.ones(dn), al.PAT(dn)["dense"] | 1, (1 << (64 * dn - 1)) | 1, al.PAT(dn, 5)["dense"]][di]
+        d <<= sh          # even divisors: low zero bits / whole zero limbs are shifted out first
+        n = q * d
+        sgn = -1 if (qi + di) & 1 else 1
+        for name, args, exp in (("mpz_divexact", (sgn * n, d), None), ("mpz_divisible_p", (sgn * n, d), None), ("mpz_divisible_p", (n + (1 << (64 * (dn // 2))), d), None),
+                                ("mpz_congruent_p", (n + 12345, 12345 - (d if qi & 1 else 0), d), None), ("mpz_congruent_p", (n + 7, 8, -d), None)):
+            op = ot.OPS[name]
+            for pat in (op.alias_patterns() if name == "mpz_divexact" else [{}]):
+                ot.run(op, args, alias=pat, R=R, tag="%s[qn=%d,dn=%d,sh=%d]" % (name, qn, dn, sh))
+        # mpn_divexact directly (needs the quotient to be exact and the top limb of d non-zero)
+        nn = al.nl(n)
+        dl = al.nl(d)
+        A = arena(nn + dl + nn + 64)
+        on, od, oq = G, 2 * G + nn, 3 * G + nn + dl
+        end = oq + (nn - dl + 1) + G
+        A.reset(end)
+        A.put(on, n, nn)
+        A.put(od, d, dl)
+        f_mpn_divexact(A.addr(oq), A.addr(on), nn, A.addr(od), dl)
+        if A.get(oq, nn - dl + 1) != q:
+            R.fail("mpn_divexact", "nn=%d dn=%d shift %d: quotient wrong" % (nn, dl, sh))
+        if A.get(on, nn) != n or A.get(od, dl) != d or not A.untouched(end, [(on, nn), (od, dl), (oq, nn - dl + 1)]):
+            R.fail("mpn_divexact", "nn=%d dn=%d: source modified or wrote outside qp" % (nn, dl))
+        return (cfg, qn, dn, qi, di, sh)
+
+    qns = sorted(set(list(range(1, 12)) + [15, 18, 19, 20, 30, 53, 54, 55, 70] + ([] if quick else [100, 150])))
+    sp.append(Space("exact_division_large", [(BASECFG, qn) for qn in qns], dx_cases, dx_one,
+                    "mpz_divexact (every alias pattern), mpz_divisible_p, mpz_congruent_p, mpn_divexact on n = q*d with quotient and divisor sizes on both sides of DC_BDIV_Q/DC_BDIV_QR (Hensel division), even divisors with bit and whole-limb shifts"))
+
     CV = al.zvals(2)
 
     def cg_cases(blk):
